@@ -12,7 +12,7 @@ from ..hist import run_dfs, fork_call
 from . import decl
 
 VALID = ['B1', 'B2', 'N1', 'S', 'V', 'P', 'NB', 'x1', 'x2', 'x3', 'y1',
-         'x1/y1', 'x1/y0', 'x1²', 'vt', 'st', 'n1', 'n1/x0', 'x1dup', '?query']
+         'x1/y1', 'x1/y0', 'x1²', 'vt', 'st', 'n1', 'n1/x0', 'x1dup', 'vt2', '?query']
 INVALID = ['!dupsym', '!dupsym2', '!empty', '!nonstr', '!S2', '!V2',
            '!B1again', '!othertype', '!otherdim', '!wrongbase',
            '!wrongcount', '!B3dupref', '!derivebase', '!NB2', '!P2',
@@ -87,6 +87,12 @@ def run(tier, seed):
         k = seed % 3
         inv = QUICK_INVALID[k:] + QUICK_INVALID[:k]
         plans = [(VALID + INVALID, 2, ROOTS), (VALID + inv[:4], 3, ROOTS)]
+    # two unit families in a type without reference unit (own small plan)
+    plans.append((['n2', 'n1k', 'n2k', 'nmix', '!nmixbad', 'n1/x0',
+                   '!dupsym'], 6 if tier == 'thorough' else 5, [ROOTS[3]]))
+    plans.append((['B\u2126', 'k\u2126', 'S\u2126', 'k\u2126\u00b2',
+                   '!dup\u2126', '?query'], 6 if tier == 'thorough' else 5,
+                  [ROOTS[0]]))
     for names, depth, roots in plans:
         for root in roots:
             n, nfp = explore(names, depth, total, root=root)
